@@ -9,7 +9,10 @@ BN = progs.BN
 def rand_schema(rnd, depth=0):
     k = rnd.random()
     if depth >= 2 or k < 0.35: return ["bool"] if rnd.random() < 0.4 else ["intmod", rnd.choice([1, 2, 3, 5, 8, 10, 16, 17])]
-    if k < 0.7: return ["list", [rand_schema(rnd, depth + 1) for _ in range(rnd.choice([1, 2, 3]))]]
+    if k < 0.7:
+        subs = [rand_schema(rnd, depth + 1) for _ in range(rnd.choice([1, 2, 3]))]
+        if len(subs) >= 2 and rnd.random() < 0.4: subs[-1] = copy.deepcopy(subs[0])     # the same field type at two positions (shared object under cfg["share"])
+        return ["list", subs]
     return ["repeat", rand_schema(rnd, depth + 1), rnd.choice([1, 2, 3])]
 
 
@@ -52,6 +55,15 @@ def fixed_cases():
         for v in vals:
             prog = [["input", 0, "priv", 0], ["pack", 1, ["intmod", m], 0], ["unpack", 2, ["intmod", m], 1]]
             out.append(dict(cfg=dict(p=BN, n=n, res=1, ign=0), prog=prog, ins=[v], kind="pack", schema=["intmod", m], value=v, secret=True))
+    # one packer instance at several positions of a list (also inside a repetition): distinct values at the shared positions
+    u8, d = ["intmod", 256], ["intmod", 10]
+    for sch, val in ((["list", [u8, ["bool"], u8]], [200, 1, 17]), (["repeat", ["list", [d, d]], 2], [[3, 7], [9, 0]]),
+                     (["list", [["list", [d, ["bool"]]], d, ["list", [d, ["bool"]]]]], [[4, 1], 9, [6, 0]])):
+        for secret in (False, True):
+            prog, ins, nreg = [], [], [0]
+            src = build(prog, ins, val, secret, nreg, random.Random(7))
+            prog += [["pack", nreg[0], sch, src], ["unpack", nreg[0] + 1, sch, nreg[0]]]
+            out.append(dict(cfg=dict(p=BN, n=16, res=1, ign=0, share=1), prog=prog, ins=ins, kind="pack", schema=sch, value=val, secret=secret))
     return out
 
 
@@ -64,6 +76,7 @@ def casegen(rnd):
     if k < 0.65:
         # pack / unpack round trip
         sch = rand_schema(rnd)
+        if rnd.random() < 0.5: cfg["share"] = 1      # equal sub-schemas are one packer object, in pack and in unpack
         oor = rnd.random() < 0.2
         val = rand_value(rnd, sch, oor)
         secret = rnd.random() < 0.6
